@@ -5,7 +5,8 @@
 // ServeHTTP (and, for a sample, over loopback TCP with chunked transfer
 // encoding) by a body reader that returns exactly the planned reads. The
 // oracle is refLines (model.go): split on '\n', final unterminated line
-// included. See NOTES.md.
+// included. A further family (stop.go) runs the plugin with its own loopback
+// listener and calls Plugin.Stop() while a body is in flight. See NOTES.md.
 package main
 
 import (
@@ -44,6 +45,7 @@ func (a *agg) add(vs []viol, seen map[string]int) {
 func main() {
 	core.RegisterChild("seq", childSeq)
 	core.RegisterChild("conc", childConc)
+	core.RegisterChild("stop", childStop)
 	core.Main("C11", "exploration", run)
 }
 
@@ -52,13 +54,15 @@ func run(c *core.Ctx) {
 	c.SetExhaustive(true)
 	c.SetRule(fmt.Sprintf("(1) EXHAUSTIVE small scope: every body over {unique ordinary byte, '\\n', '\\r'} of length 0..%d x every composition of the length into read sizes x {EOF after / together with the last read}, served sequentially through the same plugin instances (emulate_mode no, max_event_size unset; lengths 0..%d again with max_event_size 1..5 set; lengths 0..%d again through elasticsearch /_bulk; lengths 0..%d gzip-encoded in several block/member layouts x wire chunkings); "+
 		"(2) seeded bodies (half of them on instances with max_event_size 3..32768 set, with and without cut_off_event_by_limit) with lines around and beyond the 16 KiB read buffer, multi-byte runes, CRLF, empty lines, read plans (1-byte, fixed, random, boundaries at newlines, empty reads), gzip layouts, injected transport errors and truncated gzip streams, a sample over loopback TCP with chunked transfer encoding; "+
-		"(3) 2..32 requests in flight together on one instance under the race detector, every line tagged with request and index. "+
+		"(3) 2..32 requests in flight together on one instance under the race detector, every line tagged with request and index; "+
+		"(4) Plugin.Stop() while a body is in flight: the plugin runs with its own loopback listener, a body of 3..12 tagged lines is uploaded in 2..6 pieces over a raw TCP connection (chunked / Content-Length, plain / gzip flushed per piece), Stop() is called after k pieces were written and the lines they complete were seen by the controller, then the upload is finished (piece by piece / at once) or aborted (half-close / close); the status is the one the client reads from the wire. "+
 		"distinct_nontrivial = distinct shapes: per read the pattern of newline / CR / run-of-ordinary-bytes (exhaustive part up to length 7; beyond that per read only newline-at-start / inside / at-end), generator class x encoding x body class (seeded part), round composition x measured interleaving (concurrent part)",
 		maxLen, maxLen-1, c.N(5, 7), c.N(4, 6)))
 	c.Assume("the recording InputPluginController copies the data bytes during In, like pipeline.In does; data is not looked at after In returned")
 	c.Assume("gzip streams are produced by the Go standard library writer; several members decompress to the concatenation of their contents (RFC 1952)")
 	c.Assume("pipeline size settings (max_event_size 0/1..5/8/32/4096/16383..16385/32768, cut_off_event_by_limit on/off) must not change what the http input hands over: size policy is applied behind In (C20)")
 	c.Assume("an incompletely delivered body (transport read error, cut gzip stream) must not be answered with 200; what is handed over for it only has to be a prefix of the body's lines")
+	c.Assume("stop-mid-body cases: which answer a request gets when the plugin is stopped while its body is in flight (200 after draining, 4xx/5xx, connection reset) is not judged; only '2xx seen by the client => exactly the body's lines had been handed over' and 'otherwise => a prefix of the body's lines'")
 
 	a := &agg{viols: map[string]*viol{}, vseen: map[string]int{}}
 	var shapesMu sync.Mutex
@@ -88,6 +92,9 @@ func run(c *core.Ctx) {
 		part := "sequential requests"
 		if conc {
 			part = "concurrent requests"
+		}
+		if name == "stop" {
+			part = "requests while the plugin is being stopped"
 		}
 		c.Violation(fmt.Sprintf("http-input process crash while serving %s: %s @%s", part, core.NormalizeMsg(msg), stripLine(site)),
 			"the child process serving requests died: "+msg,
@@ -155,6 +162,51 @@ func run(c *core.Ctx) {
 		c.Count("seq_shards_completed", 1)
 	})
 
+	// ---------------- phase C (runs next to phase B): Plugin.Stop() while a body is in flight
+	nStop := c.N(8, 24)
+	stopCases := c.N(60, 200)
+	var phaseC sync.WaitGroup
+	phaseC.Add(1)
+	go func() {
+		defer phaseC.Done()
+		core.ParallelFor(nStop, 6, func(i int) {
+			in := stopIn{Seed: c.Seed, Idx: i, Cases: stopCases, Par: 10}
+			opt := core.ChildOpt{Timeout: 20 * time.Minute, GOMAXPROCS: []int{4, 2, 8, 3}[i%4]}
+			res := core.RunChild("stop", in, opt)
+			handleRaces(res, in)
+			if !completed(res) {
+				handleCrash("stop", in, res, opt, true)
+				return
+			}
+			var out concOut
+			if err := json.Unmarshal(res.Out, &out); err != nil {
+				c.Inconclusive("unreadable child output")
+				return
+			}
+			c.Eval(int(out.Evals))
+			for k, n := range out.Counters {
+				c.Count("stop:"+k, n)
+			}
+			for k, n := range out.Incon {
+				for j := 0; j < n; j++ {
+					c.Inconclusive(k)
+				}
+			}
+			a.add(out.Viols, out.VSeen)
+			shapesMu.Lock()
+			for _, s := range out.FPs {
+				shapes[s] = struct{}{}
+			}
+			if i == 1 {
+				for _, s := range out.Samples {
+					c.Sample(s)
+				}
+			}
+			shapesMu.Unlock()
+			c.Count("stop_children_completed", 1)
+		})
+	}()
+
 	// ---------------- phase B: concurrent requests under the race detector
 	nConc := c.N(10, 40)
 	rounds := c.N(6, 16)
@@ -197,6 +249,8 @@ func run(c *core.Ctx) {
 		shapesMu.Unlock()
 		c.Count("conc_children_completed", 1)
 	})
+
+	phaseC.Wait()
 
 	for s := range shapes {
 		c.Nontrivial(s)
@@ -243,6 +297,11 @@ func run(c *core.Ctx) {
 		need("concurrent_requests_judged", 50)
 		need("conc:lines_longer_than_read_buffer", 5)
 		need("conc:measured_rounds_with_interleaved_In_calls", 1)
+		need("stop_children_completed", int64(nStop))
+		need("stop:cases_judged", int64(nStop*stopCases*3/4))
+		need("stop:answered_200_after_complete_upload", int64(nStop*stopCases/10))
+		need("stop:partial_line_pending_at_stop_and_2+_pieces_follow_and_upload_finished", int64(nStop*stopCases/20))
+		need("stop:rendezvous_on_handed_lines:reached", int64(nStop*stopCases))
 		if want := exhaustiveCount(maxLen); c.Counter("exhaustive_plain_cases") != want {
 			c.Fatal("exhaustive scope incomplete: %d of %d cases evaluated", c.Counter("exhaustive_plain_cases"), want)
 		}
